@@ -165,3 +165,7 @@ def run(ctx):
     # still on the parent's absence steps unless this very run asks automatic tasks to go on (C10's rule on the flag's value)
     from .C10 import r10_6
     r10_6(ctx)
+    # "occupies exactly ceil(...) steps": the step at which the task's remaining work counts as used up is decided by the finish
+    # check's absolute tolerance (0.1-sized progress steps leave residues like 1e-16)
+    from .C02 import r2_5
+    r2_5(ctx)
